@@ -8,6 +8,7 @@ CONSTANTS
   MaxApi = 2
   MaxKeys = 2
   MaxCreds = 3
+  MaxGrants = 1
   VFs <- NoneOr2
   EXs <- NoneOr3
   SimDepth = 14
